@@ -17,8 +17,7 @@ RULE = ("Generator: C02/C04 inputs as Dask arrays with INDEPENDENT chunkings of 
         "ids/count/min/max, float64 formula bound for sum/mean/std/var. Non-trivial: >= 2 blocks and some zone split over >= 2 blocks or absent from a "
         "block. Distinct by SHA-1 of the case / enumeration index.")
 ASSUMPTIONS = ["at least one requested zone exists (statement's proviso)", "stats_funcs is a list (documented for Dask)",
-               "value dtypes int32/int64/float32/float64 with |v| <= 1e3: the documented sum-of-squares formula is evaluated in the values' dtype, "
-               "narrower integers would overflow in z**2 and are not generated",
+               "value magnitudes |v| <= 1e3 (int8..int64, uint8, float32, float64)",
                "scheduler/worker count is chosen by the harness; thread interleavings are sampled, not enumerated"]
 BUDGET_S = {"quick": 200, "thorough": 1500}
 EPS = 2.0 ** -52
@@ -234,12 +233,12 @@ def chunk_pair(draw, h, w):
 def stats_cases(draw, max_side):
     h, w = draw(S.shapes(1, max_side))
     zones, zkind = draw(zone_grid(h, w))
-    vdtype = draw(st.sampled_from(["float64", "float64", "float32", "int32", "int64"]))
+    vdtype = draw(st.sampled_from(["float64", "float64", "float32", "int32", "int64", "int16", "int8", "uint8"]))
     if vdtype.startswith("float"):
         pal = draw(st.sampled_from([S.PAL_HALVES, S.PAL_SIGNED, [0.0, 1.0, 2.0, 50.0, -30.5, 7.25], S.PAL_NONF32[:6] + [999.9] if vdtype == "float64" else S.PAL_HALVES]))
         vdata = draw(S.grid(h, w, pal, specials=["nan", "inf", "-inf"]))
     else:
-        vdata = draw(S.grid(h, w, [0, 1, 2, 3, 7, 50, 100, -1, -30]))
+        vdata = draw(S.grid(h, w, [0, 1, 2, 3, 7, 50, 100] + ([] if vdtype == "uint8" else [-1, -30]) + ([200, 255] if vdtype == "uint8" else [])))
     zpres = _present(zones)
     nodata = draw(st.sampled_from([None, None, 0, 99, 2]))
     zone_ids = None
